@@ -21,6 +21,8 @@ pub mod generator;
 pub enum Src {
     Proc(usize),
     Recv,
+    /// selective receive: a filter function accepting only messages whose tag is `k`
+    RecvTag(u64),
     Timeout(u64),
 }
 
@@ -71,6 +73,7 @@ impl Scenario {
                             match x {
                                 Src::Proc(r) => s.push_str(&format!("(proc {r})")),
                                 Src::Recv => s.push_str("(recv any)"),
+                                Src::RecvTag(k) => s.push_str(&format!("(recv tag {k})")),
                                 Src::Timeout(ms) => s.push_str(&format!("(timeout {ms})")),
                             }
                         }
@@ -124,6 +127,7 @@ impl Scenario {
                         .map(|s| match s {
                             Src::Proc(r) => regs[*r].clone(),
                             Src::Recv => "#['int, 'int]".to_string(),
+                            Src::RecvTag(k) => format!("#['int, 'int] {{ =[{k}, x] => Ok }}"),
                             Src::Timeout(ms) => ms.to_string(),
                         })
                         .collect();
@@ -226,7 +230,13 @@ pub fn parse_scripts(s: &str) -> Option<Vec<Vec<Act>>> {
                                 let Sx::A(h) = &it[0] else { return None };
                                 match h.as_str() {
                                     "proc" => ss.push(Src::Proc(num(&it[1])? as usize)),
-                                    "recv" => ss.push(Src::Recv),
+                                    "recv" => {
+                                        if it.len() >= 3 {
+                                            ss.push(Src::RecvTag(num(&it[2])?))
+                                        } else {
+                                            ss.push(Src::Recv)
+                                        }
+                                    }
                                     "timeout" => ss.push(Src::Timeout(num(&it[1])?)),
                                     _ => return None,
                                 }
@@ -544,11 +554,29 @@ impl<'a> Lock<'a> {
         }
         let ran = trace.first().and_then(|t| fn_to_pid.get(&t.0).copied());
         let mut fuel = 0;
-        for (f, pc, _, _) in &trace {
+        for (idx, (f, pc, _, _)) in trace.iter().enumerate() {
             if let Some(func) = ex.get_function(*f)
                 && let Some(ins) = func.instructions.get(*pc)
                 && matches!(ins, Instruction::Select | Instruction::Send | Instruction::Spawn)
             {
+                // A Select execution that only CALLED a filter function (selective receive) is not
+                // an attempt of the model: the model evaluates the whole select atomically at the
+                // execution that completes or parks it.
+                if matches!(ins, Instruction::Select) {
+                    let called = match trace.get(idx + 1) {
+                        Some((f2, _, _, _)) => f2 != f,
+                        None => ran
+                            .and_then(|pid| ex.get_process(pid).map(|p| (pid, p)))
+                            .map(|(pid, p)| {
+                                p.select_state.as_ref().map(|st| st.receiving.is_some()).unwrap_or(false)
+                                    && !ex.verif_parked().1.contains(&pid)
+                            })
+                            .unwrap_or(false),
+                    };
+                    if called {
+                        continue;
+                    }
+                }
                 fuel += 1;
             }
         }
@@ -615,8 +643,38 @@ impl<'a> Lock<'a> {
                 }
                 for s in &st.sources {
                     let ready = match s {
-                        Value::Process(t, _) => matches!(p.awaiting.get(t), Some(Some(_))),
-                        Value::Function(_, _) | Value::Builtin(_) => !p.mailbox.is_empty(),
+                        Value::Process(t, _) => {
+                            matches!(p.awaiting.get(t), Some(Some(_)))
+                                || p.awaiting_failed.contains_key(t)
+                                || self.sim.workers.iter().any(|w2| {
+                                    w2.verif_executor().get_process(*t).map(|tp| tp.result.is_some()).unwrap_or(false)
+                                })
+                        }
+                        Value::Function(fidx, _) => {
+                            let body_empty = ex.get_function(*fidx).map(|f| f.instructions.is_empty()).unwrap_or(true);
+                            if body_empty {
+                                !p.mailbox.is_empty()
+                            } else {
+                                // tag filter `=[k, x] => Ok`: k is the first integer constant of the body
+                                let k = ex.get_function(*fidx).and_then(|f| {
+                                    f.instructions.iter().find_map(|ins| match ins {
+                                        Instruction::Constant(ci) => match ex.get_constant(*ci) {
+                                            Some(quiver_core::bytecode::Constant::Integer(i)) => {
+                                                use num_traits::ToPrimitive;
+                                                i.to_u64()
+                                            }
+                                            _ => None,
+                                        },
+                                        _ => None,
+                                    })
+                                });
+                                match k {
+                                    Some(k) => p.mailbox.iter().any(|m| msg_pair(m).map(|(t, _)| t == k).unwrap_or(false)),
+                                    None => false,
+                                }
+                            }
+                        }
+                        Value::Builtin(_) => !p.mailbox.is_empty(),
                         _ => false,
                     };
                     if ready {
